@@ -40,7 +40,7 @@ def parseLabel (known : List String) (j : Json) : R (Label String) := do
   | [.str "rxSetEvent"] => return .rxSetEvent
   | [.str "rxRequeue"] => return .rxRequeue
   | [.str "rxCleanPop"] => return .rxCleanPop
-  | [.str "rxCleanup", b, tk] => return .rxCleanup (← b.getBool?) (← (← arr tk).mapM (·.getNat?))
+  | [.str "rxCleanup", r, tk] => return .rxCleanup (← optNat r) (← (← arr tk).mapM (·.getNat?))
   | [.str "closeBegin"] => return .closeBegin
   | [.str "closeTxq"] => return .closeTxq
   | [.str "closeActive"] => return .closeActive
@@ -69,6 +69,7 @@ def parseOutcome (j : Json) : R Outcome := do
   | "error" => return .secopError (← fldNat j "seq")
   | "conn" => return .connError
   | "timeout" => return .timeout
+  | "later" => return .laterConn
   | _ => return .other
 
 def parseCaller (j : Json) : R CallerObs := do
@@ -150,10 +151,60 @@ def shReplay : Sh → List Json → Nat → R Json
 
 end
 
+/-! ### connection model -/
+section
+open Frappy.Client.Conn
+
+def parseOut (j : Json) : R Out := do
+  match ← arr j with
+  | [.str "line", n] => return .line (← n.getNat?)
+  | [.str "none"] => return .nothing
+  | [.str "closed"] => return .closed
+  | [.str "ok"] => return .ok
+  | [.str "connErr"] => return .connErr
+  | [.str "other", c] => return .otherErr (← c.getStr?)
+  | _ => throw s!"bad outcome {j.compress}"
+
+def parseOp (s : String) : R Op :=
+  match s with
+  | "readline" => pure .readline
+  | "send" => pure .send
+  | "shutdown" => pure .shutdown
+  | "disconnect" => pure .disconnect
+  | _ => throw s!"bad op {s}"
+
+def parseEv (j : Json) : R Ev := do
+  match ← arr j with
+  | [.str "peerSend"] => return .peerSend
+  | [.str "peerFin"] => return .peerFin
+  | [.str "peerRst"] => return .peerRst
+  | [.str "call", o, r] => return .call (← parseOp (← o.getStr?)) (← parseOut r)
+  | _ => throw s!"bad event {j.compress}"
+
+def connHandle (j : Json) : R Json := do
+  let evs ← (← fldArr j "events").mapM parseEv
+  let refused : Option Nat := match Frappy.Client.Conn.run {} evs 0 with
+    | .ok _ => none
+    | .error i => some i
+  return Json.mkObj [("refused_at", jopt jnat refused), ("first_bad", jopt jnat (connFirstBad {} evs 0))]
+
+end
+
+def releaseHandle (j : Json) : R Json := do
+  let r : Release := { out := ← parseOutcome j, elapsedMs := ← fldNat j "elapsedMs" }
+  let re : RunEnd := { threadErrors := ← fldStrs j "threadErrors", disconnectRaised := ← fldStrs j "disconnectRaised",
+                       alive := ← fldStrs j "alive", deadlock := false, unterminated := ← fldBool j "unterminated" }
+  return Json.mkObj [("released_promptly", Json.bool (releasedPromptlyB (← fldNat j "boundMs") r)),
+                     ("shutdown_clean", Json.bool (shutdownCleanB re))]
+
 def handle (j : Json) : R Json := do
   let k ← fldStr j "k"
   if k == "shutdown_replay" then
     return ← shReplay {} (← fldArr j "acts") 0
+  if k == "conn" then
+    return ← connHandle j
+  if k == "release" then
+    return ← releaseHandle j
   let known ← fldStrs j "known"
   let labels ← (← fldArr j "labels").mapM (parseLabel known)
   match k with
@@ -173,13 +224,24 @@ def handle (j : Json) : R Json := do
     let re : RunEnd := { threadErrors := ← fldStrs j "threadErrors", disconnectRaised := ← fldStrs j "disconnectRaised",
                          alive := ← fldStrs j "alive", deadlock := ← fldBool j "deadlock",
                          unterminated := ← fldBool j "unterminated" }
+    let fin : Bool ← match j.getObjVal? "afterShutdown" with
+      | .ok a => do
+        let x : AfterShutdown := { userActivity := ← fldBool a "userActivity", alive := ← fldStrs a "alive",
+                                   connected := ← fldBool a "connected" }
+        pure (shutdownFinalB x)
+      | .error _ => pure true
     return Json.mkObj [
       ("shutdown_clean", Json.bool (shutdownCleanB re)),
+      ("shutdown_final", Json.bool fin),
       ("first_parked", jopt jnat (firstParked tbl states 0)),
+      ("first_lost", jopt jnat (firstLost states 0)),
       ("reply_matches_known", Json.bool (replyMatchesKnownB tbl final)),
       ("reply_matches", Json.bool (replyMatchesB tbl final)),
       ("no_double", Json.bool (noDoubleDeliveryB final)),
-      ("verdicts", jstrs (callers.map (fun c => verdictStr (judgeCaller tbl final closedAt everClosing waitMs c)))),
+      ("verdicts", jstrs (callers.map (fun c =>
+        -- the state in which the caller's `put` was made (state `putAt` of the observed run), if it made one
+        let putClosing := c.id < final.nextId && ((states.drop c.putAt).head?.map (·.closing)).getD false
+        verdictStr (judgeCaller tbl final closedAt everClosing waitMs putClosing c)))),
       ("final", summary final)]
   | _ => throw s!"C11: unknown verb {k}"
 
